@@ -77,8 +77,11 @@ pub enum AtomKind {
     /// a nested filter that is *not* the last segment of the test query, `@.n[?@.r].d`: true when some kept
     /// child has `d` - not necessarily the first kept one
     NestedThenMore,
+    /// two filter selectors in neighbouring segments of the test query, `@.t[?@.r][?@.d]` (predicates chained
+    /// by a query builder): true when some child of a kept row has `d`
+    NestedTwice,
 }
-pub const KINDS: [AtomKind; 14] = [
+pub const KINDS: [AtomKind; 15] = [
     AtomKind::Exists,
     AtomKind::CmpEq,
     AtomKind::Match,
@@ -93,6 +96,7 @@ pub const KINDS: [AtomKind; 14] = [
     AtomKind::ExistsNegIndex,
     AtomKind::ExistsSeveral,
     AtomKind::NestedThenMore,
+    AtomKind::NestedTwice,
 ];
 
 fn nm(s: &str) -> StrLit {
@@ -196,6 +200,17 @@ fn atom_expr(kind: AtomKind, i: usize) -> (Expr, bool) {
                     nseg(&format!("n{}", i)),
                     Seg { desc: false, sels: vec![Sel::Filter(Expr::Test(false, Box::new(TestE::Q(rel(vec![nseg("r")])))))], dot: false },
                     nseg("d"),
+                ]))),
+            ),
+            true,
+        ),
+        AtomKind::NestedTwice => (
+            Expr::Test(
+                false,
+                Box::new(TestE::Q(rel(vec![
+                    nseg(&format!("t{}", i)),
+                    Seg { desc: false, sels: vec![Sel::Filter(Expr::Test(false, Box::new(TestE::Q(rel(vec![nseg("r")])))))], dot: false },
+                    Seg { desc: false, sels: vec![Sel::Filter(Expr::Test(false, Box::new(TestE::Q(rel(vec![nseg("d")])))))], dot: false },
                 ]))),
             ),
             true,
@@ -394,6 +409,39 @@ fn atom_members(src: &mut Src, kind: AtomKind, i: usize, truth: bool, out: &mut 
                     1 => out.push((n, J::Arr(vec![kept(None), kept(None)]))),
                     2 => out.push((n, J::Arr(vec![J::Obj(vec![("d".to_string(), J::Int(1))]), kept(None)]))),
                     _ => out.push((n, J::Arr(vec![]))),
+                }
+            }
+        }
+        AtomKind::NestedTwice => {
+            let t = format!("t{}", i);
+            let hollow = src.pick(&[J::Null, J::Bool(false), J::Int(0), J::Str("".into()), J::Arr(vec![])]).clone();
+            let row = |r: bool, inner: J| {
+                let mut m = vec![];
+                if r {
+                    m.push(("r".to_string(), J::Int(1)));
+                }
+                m.push(("c".to_string(), inner));
+                J::Obj(m)
+            };
+            let with_d = J::Obj(vec![("d".to_string(), hollow)]);
+            let without_d = J::Obj(vec![("e".to_string(), J::Int(1))]);
+            if truth {
+                let items = match src.below(3) {
+                    0 => vec![row(true, with_d)],
+                    1 => vec![row(false, with_d.clone()), row(true, without_d), row(true, with_d)],
+                    // the holder of `d` is not the first child of the kept row, and the row is not the first element
+                    _ => vec![J::Int(3), J::Obj(vec![("r".to_string(), J::Int(1)), ("b".to_string(), without_d), ("c".to_string(), with_d)])],
+                };
+                out.push((t, J::Arr(items)));
+            } else {
+                match src.below(5) {
+                    0 => {}
+                    1 => out.push((t, J::Arr(vec![row(true, without_d)]))),
+                    // the holder of `d` sits in a row that is not kept
+                    2 => out.push((t, J::Arr(vec![row(false, with_d), row(true, J::Int(1))]))),
+                    // `d` on the kept row itself, not on one of its children
+                    3 => out.push((t, J::Arr(vec![J::Obj(vec![("r".to_string(), J::Int(1)), ("d".to_string(), J::Int(1))])]))),
+                    _ => out.push((t, J::Arr(vec![]))),
                 }
             }
         }
@@ -601,7 +649,7 @@ fn check_formula_on(f: &F, more: &[F], k: usize, kinds: &[AtomKind], src: &mut S
     let v = doc.to_value();
     let map = node_map(&v);
     obs.eval(1);
-    let nested = kinds[..k].iter().any(|x| matches!(x, AtomKind::NestedQ | AtomKind::NestedSelf | AtomKind::NestedDesc | AtomKind::NestedUnion | AtomKind::NestedThenMore));
+    let nested = kinds[..k].iter().any(|x| matches!(x, AtomKind::NestedQ | AtomKind::NestedSelf | AtomKind::NestedDesc | AtomKind::NestedUnion | AtomKind::NestedThenMore | AtomKind::NestedTwice));
     let varying = !exp_ids.is_empty() && exp_ids.len() < children.len() * all_fs.len() * if multi { 2 } else { 1 };
     if !more.is_empty() {
         obs.label("several-filter-selectors");
